@@ -309,6 +309,18 @@ func (g *gen) enumerate() []Case {
 		}
 		c.Pos = g.errPositions(callForm)
 		out = append(out, c)
+		if callForm {
+			// the same failing call under a leading negation, under !( … ), and as the right
+			// operand of || / && after a leading !x: every position must still fail
+			for i, w := range errWraps {
+				wc := c
+				wc.Wrap, wc.WrapX = wrapFor(env, w, len(out)+i)
+				wc.Pos = g.wrapPositions(wc)
+				if len(wc.Pos) > 0 {
+					out = append(out, wc)
+				}
+			}
+		}
 	}
 	for _, form := range []bool{false, true} {
 		for _, u := range unknownNames {
